@@ -345,6 +345,9 @@ func readJSONKV(data []byte, key *string, val *any) (n int, err error) {
 				return 0, fmt.Errorf("length %d exceeds data length", l)
 			}
 
+			if key == nil {
+				return 0, fmt.Errorf("unexpected key in JSON array entry")
+			}
 			n, err := StringCodec{}.Read(data[offset:offset+int(l)], unsafe.Pointer(key), wt)
 			if err != nil {
 				return 0, err
